@@ -489,6 +489,12 @@ func Controller(d *leandrv.Driver, r *rng.R, res *report.Result, thorough bool) 
 							Detail: fmt.Sprintf("controller %s moved a run from run state %d to %d (op %d of %v on one controller)", op, cur, int(w.RunState), i, seq),
 							Replay: map[string]any{"initial_run_state": rs, "ops": seq}})
 					}
+					if (cur == 4 || cur == 6 || cur == 7) && int(w.RunState) != cur && !lifecycleEdge(cur, int(w.RunState)) {
+						// C08: a cancelled (or deletion-requested / deleted) run is left alone: no controller request may revive it
+						res.Violate(report.Violation{Property: "C08", Oracle: "stopped-runs-left-alone", Signature: fmt.Sprintf("ctl-revived-stopped-run %d->%d", cur, int(w.RunState)),
+							Detail: fmt.Sprintf("controller %s moved a run from run state %d to %d (op %d of %v on one controller)", op, cur, int(w.RunState), i, seq),
+							Replay: map[string]any{"initial_run_state": rs, "ops": seq}})
+					}
 					if int(w.RunState) != target[op] {
 						res.Violate(report.Violation{Property: "C03", Oracle: "lifecycle-path", Signature: "ctl-wrong-target",
 							Detail: fmt.Sprintf("%s wrote run state %d", op, int(w.RunState)), Replay: map[string]any{"initial_run_state": rs, "ops": seq}})
